@@ -93,6 +93,32 @@ func gen(r *lib.Rand) *prog {
 	return p
 }
 
+// genBurst: more than a thousand immediates pending in one batch; early ones request more (directly and from a reaction)
+func genBurst(r *lib.Rand) *prog {
+	p := &prog{kind: map[int]string{}}
+	n := 1026 + r.Intn(120)
+	p.bodies = make([][]act, n+1)
+	var root []act
+	for i := 1; i <= n; i++ {
+		p.kind[i] = "immediate"
+		root = append(root, act{"immediate", i, 0})
+	}
+	p.bodies[0] = root
+	add := func(body []act, kind string) int {
+		id := len(p.bodies)
+		p.bodies = append(p.bodies, body)
+		p.kind[id] = kind
+		return id
+	}
+	for _, at := range []int{1, 1 + r.Intn(n), n} { // requests made by the first, by some, and by the last immediate of the batch
+		late := add(nil, "immediate")
+		inner := add(nil, "immediate")
+		mic := add([]act{{"immediate", inner, 0}}, "micro")
+		p.bodies[at] = append(p.bodies[at], act{"immediate", late, 0}, act{"micro", mic, 0})
+	}
+	return p
+}
+
 func (p *prog) js() string {
 	var sb strings.Builder
 	sb.WriteString("var __log = []; var __h = [];\n")
@@ -166,6 +192,9 @@ func main() {
 	r := lib.NewRand(lib.Seed()*977 + 3)
 	for c := 0; c < n; c++ {
 		p := gen(r)
+		if c%100 == 7 { // 3 per quick run
+			p = genBurst(r)
+		}
 		src := p.js()
 		lib.Breadcrumb(outPath, src)
 		reg := new(require.Registry)
